@@ -41,6 +41,7 @@ import KafkaVerif.Lemmas.XerialIO
 import KafkaVerif.Gen.RecordConsts
 import KafkaVerif.Gen.CodecClose
 import KafkaVerif.Gen.CodecPools
+import KafkaVerif.Gen.XerialReset
 
 namespace KV.Props.C16
 open KV KV.RW KV.Model.Xerial KV.Spec.Xerial
@@ -298,6 +299,20 @@ theorem xerial_roundtrip_unframed (c : Codec) (hg : Good c) (chunks : List Bytes
 the recycled object was left in (mid-stream, after an error, after EOF), Reset gives the state of a new one. -/
 theorem reset_fresh (s : Bytes) (framed : Bool) (r : Reader) (w : Writer) :
     resetReader s r = newReader s ∧ resetWriter framed w = newWriter framed := ⟨rfl, rfl⟩
+
+/-- the premise of `reset_fresh` — the model's `resetReader` / `resetWriter` forget the WHOLE previous state — read off the
+source on every run (go/ast, `go/extract resetfields` → Gen/XerialReset): every field of `xerialReader` / `xerialWriter`
+that some method may change (assigned, or handed to a call as a slice) is assigned by `Reset`, or by `Codec.NewReader` /
+`NewWriter` after the pool Get on every path (`framed`, `encode`: the pool is shared by all snappy Codec values), or is
+scratch that is always filled right before it is used (the writer's `header`).  A Reset that stops clearing a field,
+or a new mutable field that Reset does not know, breaks this theorem. -/
+theorem gen_reset_complete :
+    (∀ f ∈ Gen.XerialReset.readerMutated, f ∈ Gen.XerialReset.readerReset ∨ f ∈ Gen.XerialReset.readerCtor ∨
+      f ∈ Gen.XerialReset.readerScratch) ∧
+    (∀ f ∈ Gen.XerialReset.writerMutated, f ∈ Gen.XerialReset.writerReset ∨ f ∈ Gen.XerialReset.writerCtor ∨
+      f ∈ Gen.XerialReset.writerScratch) ∧
+    (∀ f ∈ Gen.XerialReset.readerMutated, f ∈ Gen.XerialReset.readerFields) ∧
+    (∀ f ∈ Gen.XerialReset.writerMutated, f ∈ Gen.XerialReset.writerFields) := by decide
 
 /-- the model's block capacity and flush threshold are the constants in compress/snappy/xerial.go now
 (regenerated by `go/extract records` on every run) -/
